@@ -21,7 +21,7 @@ DTS = [0, 0.25, 1, 59.5, 60, 299, 300, 301, 359, 360, 361, 659, 660, 661, 900]
 
 KINDS = ["flow_step", "flow_new", "conn", "claim", "open", "add", "close", "release", "alloc", "list",
          "drop", "reconn", "adv", "restart", "ping", "rawconn", "claim_open",
-         "bad", "resend", "longadv", "faultadv", "fill", "faultadv2", "linger"]
+         "bad", "resend", "longadv", "faultadv", "fill", "faultadv2", "linger", "reinc"]
 
 
 class Profile(object):
@@ -55,7 +55,7 @@ class Profile(object):
         return out
 
 
-BASE_W = dict(linger=1, flow_step=24, flow_new=4, conn=2, claim=3, open=3, add=4, close=3, release=2, alloc=1, list=1,
+BASE_W = dict(linger=1, reinc=1, flow_step=24, flow_new=4, conn=2, claim=3, open=3, add=4, close=3, release=2, alloc=1, list=1,
               drop=2, reconn=3, adv=3, restart=1, ping=0, rawconn=0, claim_open=1,
               bad=0, resend=0, longadv=0, faultadv=0, fill=0, faultadv2=0)
 
@@ -71,7 +71,7 @@ PROFILES = {
     "replay": Profile("replay", W(add=9, open=7, reconn=4, restart=2, longadv=1), napps=2, nmail=2),
     "fanout": Profile("fanout", W(linger=3, add=10, open=8, conn=8, claim=2, alloc=0, release=1, restart=3, adv=5), napps=1, nsides=3, nmail=2, nnames=2, forged=True),
     "claims": Profile("claims", W(claim=10, claim_open=2, release=5, close=4, add=1, open=2, restart=2, longadv=2, adv=6, reconn=5), napps=2, nnames=3),
-    "crowd": Profile("crowd", W(claim=8, open=7, close=4, release=3, add=4, reconn=4, conn=8, alloc=0, longadv=2, adv=2), napps=1, nsides=4, nnames=1, nmail=1),
+    "crowd": Profile("crowd", W(reinc=3, claim=8, open=7, close=4, release=3, add=4, reconn=4, conn=8, alloc=0, longadv=2, adv=2), napps=1, nsides=4, nnames=1, nmail=1),
     "holders": Profile("holders", W(claim=9, release=7, list=4, close=3, alloc=3, open=2, add=1, restart=2), napps=1, nsides=2, nnames=3),
     "closers": Profile("closers", W(close=8, open=6, claim=5, claim_open=4, release=3, add=4, reconn=4, resend=3), napps=1, nsides=2, nnames=2, nmail=2),
     "clock": Profile("clock", W(adv=9, add=5, open=5, claim=4, drop=4, reconn=3, restart=1, alloc=1, faultadv2=1), napps=2, nnames=2, nmail=2),
@@ -422,6 +422,30 @@ class Driver(object):
             return
         if kind == "fill":
             self.fill(a, b, c, m)
+            return
+        if kind == "reinc":
+            # a side of an expired incarnation comes back to the same id, then two more sides arrive
+            app = self.app_of(c)
+            sides = [self.side_of(a + i) for i in range(3)]
+            via_np = bool(m & 1)
+            target = NAMEPLATES[b % p.nnames] if via_np else self.mailbox_literal(app, b)
+            def touch(side, j0=[None]):
+                cid = self.new_conn(app, side)
+                if via_np:
+                    self.do({"op": "send", "c": cid, "msg": {"type": "claim", "nameplate": target}})
+                    cs_ = self.tr.conns.get(cid)
+                    if cs_ is not None and cs_.claim_ok and (m & 2):
+                        self.do({"op": "send", "c": cid, "msg": {"type": "open", "mailbox": {"$mb": cs_.claim_idx}}})
+                else:
+                    self.do({"op": "send", "c": cid, "msg": {"type": "open", "mailbox": target}})
+                return cid
+            c0 = touch(sides[0])
+            if m & 4 and self.tr.conns.get(c0) is not None and self.tr.conns[c0].holds:
+                self.do({"op": "send", "c": c0, "msg": {"type": "add", "phase": t1, "body": t2}})
+            self.do({"op": "drop", "c": c0})
+            self.do({"op": "advance", "dt": 961.0 + (m >> 3) % 300})
+            for sd in sides if not (m & 64) else [sides[0], sides[1], sides[0], sides[2]]:
+                touch(sd)
             return
         if kind == "linger":
             # one side on two connections, both subscribed; the mailbox is closed (deleted) through
